@@ -74,12 +74,16 @@ def call_text(route, f, es):
         if not es:
             return None
         return "(%s %s ;[%s])" % (f, es[0], " ".join(es[1:]))
+    if route == "spl2":         # (f e0 e1 ;[e2 ..]): two plain operands, then a splice (empty when the arity is 2)
+        if len(es) < 2:
+            return None
+        return "(%s %s %s ;[%s])" % (f, es[0], es[1], " ".join(es[2:]))
     if route == "cal":          # through a generic caller (fn [f & xs] (f ;xs))
         return "(call %s%s)" % (f, sp)
     raise ValueError(route)
 
 
-GENERIC_ROUTES = ["app", "app1", "spl", "spl1", "cal"]     # the callee sees only values
+GENERIC_ROUTES = ["app", "app1", "spl", "spl1", "spl2", "cal"]     # the callee sees only values
 INLINE_ROUTES = ["inl", "fv"]                              # the compiler sees the operands
 
 # contexts: where the call stands.  {C} is the call, {V} the extra observed variables.
